@@ -117,8 +117,17 @@ func splitStringLines(pre, lit, post string) ([]string, []byte) {
 	return lines, ctx
 }
 
+// c16Globals are the global arrays and strings assigned so far in the run being generated
+// (one run at a time per process).
+var c16Globals []string
+
 func drawC16Stmt(tp *tape.Tape, idx int, r *core.Result, defined *[]string) c16Stmt {
 	gv := "g" + string(rune('a'+idx))
+	if len(c16Globals) > 0 && tp.Draw(6) == 0 {
+		// look again at a value an earlier statement bound (and, in the REPL, echoed)
+		g := c16Globals[tp.Draw(len(c16Globals))]
+		return c16Stmt{[]string{"write(toa(" + g + ") + \"|\" + toa(#" + g + "))"}, []byte{'t'}, false, "reread-global"}
+	}
 	switch tp.Draw(14) {
 	case 12, 13: // a statement whose value is a string: the REPL echoes it, -eval prints it
 		lit, sp, nl := c16String(tp, tp.Bool())
@@ -154,6 +163,10 @@ func drawC16Stmt(tp *tape.Tape, idx int, r *core.Result, defined *[]string) c16S
 		return c16Stmt{[]string{"{", "a = " + fmt.Sprint(tp.Draw(9)), "write(" + lit + ")", "a + 2", "}"}, []byte{'b', 'b', 'b', 'b', 't'}, true, "block"}
 	case 3:
 		r.Inc("F7.array_literal_spanning_lines", 1)
+		c16Globals = append(c16Globals, gv)
+		if tp.Bool() { // strings that hold separators, quotes, brackets or nothing at all
+			return c16Stmt{[]string{gv + " = [\"a,b\", \"\",", "[\"[x]\", \"q\\\"q\"],", fmt.Sprint(tp.Draw(9)) + "]"}, []byte{'a', 'a', 't'}, false, "array-of-strings-multiline"}
+		}
 		return c16Stmt{[]string{gv + " = [" + fmt.Sprint(tp.Draw(9)) + ", 2,", "3,", "[4, 5], \"]\"]"}, []byte{'a', 'a', 't'}, false, "array-multiline"}
 	case 4:
 		lit, sp, nl := c16String(tp, true)
@@ -222,6 +235,7 @@ func layout(tp *tape.Tape, st c16Stmt, lastLineComment bool, r *core.Result) []s
 func (C16) Run(tp *tape.Tape) core.Result {
 	var r core.Result
 	n := 1 + tp.Draw(8)
+	c16Globals = nil
 	var defined []string
 	stmts := make([]c16Stmt, n)
 	key := core.NewHash()
